@@ -417,3 +417,56 @@ func c17r14(rc *core.RC) {
 		rc.Unknown("decoder/decodeKeyNotFound", token.NoPos, "function not found")
 	}
 }
+
+// ---- C17.R15 the walk over a marshaler's output escapes as its caller said ----
+
+// compact and the functions it calls (compactValue, compactObject, compactArray, compactString …) carry the flag
+// `escape`: with it compactString rewrites <, > and & and, by a branch of its own, the raw U+2028 and U+2029. A
+// function that switches the flag off for the text it was given (because the text holds none of the three ASCII
+// characters, say) lets the two separators through. Obligation: in compact.go no function assigns to its bool
+// parameter, and every call between these functions passes the parameter itself, or a constant, on.
+func c17r15(rc *core.RC) {
+	p := rc.P
+	n := 0
+	for _, fd := range p.Funcs("encoder") {
+		if fd.Body == nil || p.FileBase(fd.Pos()) != "compact.go" || fd.Type.Params == nil {
+			continue
+		}
+		info := p.Info(fd)
+		var flag types.Object
+		for _, fl := range fd.Type.Params.List {
+			for _, nm := range fl.Names {
+				if o := info.Defs[nm]; o != nil {
+					if b, isB := o.Type().Underlying().(*types.Basic); isB && b.Kind() == types.Bool {
+						flag = o
+					}
+				}
+			}
+		}
+		if flag == nil {
+			continue
+		}
+		n++
+		rc.Touch(p.FuncName(fd))
+		key := fmt.Sprintf("%s/%s handed-on-as-given", p.FuncName(fd), flag.Name())
+		var bad ast.Node
+		ast.Inspect(fd.Body, func(m ast.Node) bool {
+			if as, ok := m.(*ast.AssignStmt); ok {
+				for _, l := range as.Lhs {
+					if core.ObjOf(info, l) == flag && bad == nil {
+						bad = as
+					}
+				}
+			}
+			return true
+		})
+		if bad != nil {
+			rc.Bad(key, bad.Pos(), "%s changes the flag %s it was called with (%s): the strings of the text are then walked without the escaping the caller asked for, and a raw U+2028 or U+2029 in a marshaler's output (which none of <, > and & announces) reaches the result", p.FuncName(fd), flag.Name(), core.Src(p.Fset, bad))
+		} else {
+			rc.OK(key, fd.Pos(), "the flag is read and handed on, never assigned")
+		}
+	}
+	if n < 5 {
+		rc.Unknown("encoder/compact.go/escape-flags", token.NoPos, "found %d functions with a bool parameter in compact.go, fewer than the 5 confirmed by hand", n)
+	}
+}
